@@ -386,7 +386,15 @@ def precomputed_table_check():
         want = hashlib.sha256(bytes([1]) + (bytes([v]) if v else b"")).hexdigest()
         if h.lower() != want:
             return {"found": True, "finder": "precomputed-table", "index": v, "table": h.lower(), "sha256_1_v": want}
-    return {"found": False, "finder": "precomputed-table", "entries": len(entries)}
+    # the literal op_sha256 returns for an empty argument list (stub sha256_of_nothing, unit SHAOP)
+    empty = hashlib.sha256(b"").hexdigest()
+    m = re.search(r"pub fn op_sha256\(.*?\n}\n", src, re.S)
+    lits = re.findall(r'hex!\(\s*"([0-9a-fA-F]{64})"\s*\)', m.group(0)) if m else []
+    if len(lits) != 1:
+        return {"found": False, "error": f"expected one hex literal in op_sha256, found {len(lits)}"}
+    if lits[0].lower() != empty:
+        return {"found": True, "finder": "precomputed-table", "what": "op_sha256's digest for an empty argument list", "literal": lits[0].lower(), "sha256_empty": empty}
+    return {"found": False, "finder": "precomputed-table", "entries": len(entries) + 1}
 
 
 def check_property(pid, tier="quick", seed=0):
